@@ -23,7 +23,7 @@ for id in $(echo "$IDS" | tr ',' ' '); do
   RES="$RES{\"check\":\"$id\",\"exit\":$e,\"clauses\":\"$cl\"},"
 done
 if [ "$FULL" = "full" ]; then
-  unshare -rn sh -c "ip link set lo up; cd $WT && timeout 1500 /venv/bin/python -m pytest -q -p no:cacheprovider --timeout=900 -x --deselect tests/test_replwrap.py::REPLWrapTestCase::test_existing_spawn --deselect tests/test_replwrap.py::REPLWrapTestCase::test_pager_as_cat --deselect tests/test_replwrap.py::REPLWrapTestCase::test_zsh" > "$OUT/$NAME.tests.txt" 2>&1; T=$?
+  unshare -rn sh -c "ip link set lo up; cd $WT && timeout 1500 /venv/bin/python -m pytest tests -q -p no:cacheprovider --timeout=900 -x --deselect tests/test_replwrap.py::REPLWrapTestCase::test_existing_spawn --deselect tests/test_replwrap.py::REPLWrapTestCase::test_pager_as_cat --deselect tests/test_replwrap.py::REPLWrapTestCase::test_zsh" > "$OUT/$NAME.tests.txt" 2>&1; T=$?
   TS=$(tail -1 "$OUT/$NAME.tests.txt" | sed 's/"/\x27/g')
 else
   T=-1; TS="not run"
